@@ -74,7 +74,14 @@ CHECKS = {
  'C09': dict(engine='E4-enum', category='exploration', design='DESIGN.md 6, 7, 9/C09, harness/C09/NOTES.md',
    technique='exhaustive enumeration on tiny curves (all points x 4 encodings x 2 byte orders; every byte string of every accepted length on one-byte fields; all seeds, private keys and (d1, d2) pairs) plus the 32 built-in curves, against a brute-force group oracle, exact-size heap buffers under ASan',
    text='export then import is the identity for every point and form; import with validation accepts exactly the encodings of the neutral element or of on-curve points annihilated by n with coordinates < p and a known prefix, compressed input recovers the root with the requested parity; key generation, public-key recovery and Diffie-Hellman equal the reference and DH is symmetric; every byte entry point stays inside the sizes passed.',
-   note='Hybrid prefixes 06/07 with a wrong parity bit are accepted by the library: observed, not enforced (the statement does not settle it); cofactor DH on points outside <G> observed only; EC_DISABLE_PUB_KEY_CHK builds are judged on round trips and memory only.'),
+   note='Hybrid prefixes 06/07 with a wrong parity bit are accepted by the library: observed, not enforced (the statement does not settle it); cofactor DH on points outside <G> observed only; EC_DISABLE_PUB_KEY_CHK builds are judged on round trips and memory only.'), 'C04': dict(engine='E3-seqbfs', category='model_checking', design='DESIGN.md 5, 7, 9/C04, harness/C04/NOTES.md',
+   technique='partition-confluence state exploration of the real streaming hash contexts (states = absorbed length, transitions = update with the next c bytes from a buffer at alignment a; every transition must reach the single-update context, so every split is decided by induction), digests from every state against hashlib / an independent Streebog reference, across a build matrix with every block-transform implementation forced',
+   text='MD5, SHA-1, SHA-224/256/384/512, Streebog-256/512 x every transform the build contains (generic, SSE, SHA-NI, AVX) x 4 content patterns: every (absorbed n, chunk c, alignment a) transition up to 2-4 blocks+1 must give the canonical context of a single update, final from every n and the one-shot / hex entry points must equal the reference digest, the context must be wiped after final; length-field carries are reached from contexts with preset byte counters near 2^29..2^125; quick 8 builds, thorough 52 (gcc/clang x -O0/-O2/-O3 x SIMD levels x small tables).',
+   note='Message contents beyond the four patterns are not covered; Streebog table VALUES are parsed from the header and anchored only by the published vectors (expanded vs small tables are cross-checked exhaustively); two gcc SSE2/SSSE3-only builds do not compile (reported as skipped).'),
+ 'C07': dict(engine='E3-seqbfs', category='model_checking', design='DESIGN.md 5, 7, 9/C07, harness/C07/NOTES.md',
+   technique='exhaustive enumeration of key lengths 0..3 blocks+1 for all eight HMAC variants plus the partition-confluence state exploration of hmac_*_update, against Python hmac (RFC 2104) and the RFC 2104 construction over an independent Streebog reference, across the C04 build matrix',
+   text='Every key length 0..3B+1 x message lengths {0,1,B-1,B,B+1,2B}: one-shot, hex and incremental (one update, byte-wise, 0|B-1|0|rest) MACs equal the reference; update confluence over every (n, c, alignment) for representative key lengths; k_opad and the whole context are all-zero after final.',
+   note='Key and message contents beyond the fixed patterns are not covered; k_ipad is a stack local and not observable; RFC 7836 restrictions on Streebog key lengths are not applied (the property asks for RFC 2104 at every length).'),
 }
 
 REASON_WIP = 'check not finished yet in this session (harness under construction; see DESIGN.md section 13)'
